@@ -58,6 +58,8 @@ var checks = map[string]*check{
 			"T oracle (first call succeeds inside the window) asserted only in executions without a TIME deviation",
 		},
 		Parts: []part{
+			// a dial that came too early and timed out, repeated after the other end accepted
+			{Name: "early-dial-retried", Kind: "explore", Scen: "grpc_route", Inst: inst("retry", "retry"), Depths: depths([]int{0, 1}, []int{0, 1, 2}), Budget: budget(2*time.Minute, 10*time.Minute)},
 			{Name: "routing-1id", Kind: "explore", Scen: "grpc_route", Inst: inst("single", "single"), Depths: depths([]int{2}, []int{2, 3}), Budget: budget(2*time.Minute, 10*time.Minute)},
 			{Name: "routing-2id", Kind: "explore", Scen: "grpc_route", Inst: inst("pairs", "pairs-all"), Depths: depths([]int{1}, []int{1, 2}), Budget: budget(3*time.Minute, 25*time.Minute)},
 			// the real host against a hand-written gRPC plugin that announces four brokered servers and ends the broker stream at once
